@@ -67,6 +67,9 @@ def atom(r, extra_names=()):
 KEYED = ('__getitem__', '__setitem__', '__setitem_with_op__', '__delitem__', 'get', 'remove', 'index_of', 'dict')
 
 
+SCALE_NAMES = ('L300', 'D100', 'SL60', 'S2K')
+
+
 def shapes(r, extra_names=(), table_names=(), no_functions=False):
     """A random argument list (0-4 args)."""
     n = weighted(r, [(0, 0.5), (1, 4), (2, 5), (3, 2.5), (4, 0.5)])
@@ -82,8 +85,9 @@ def shapes(r, extra_names=(), table_names=(), no_functions=False):
             args.append(a)
         elif x < 0.25:
             args.append(lam(r, r.choice([1, 1, 2])))
-        elif x < 0.32 and table_names:
-            args.append(['name', r.choice(table_names)])        # a builtin passed as an argument
+        elif x < 0.32 and table_names and not (args and args[0][0] == 'name' and args[0][1] in SCALE_NAMES):
+            args.append(['name', r.choice(table_names)])        # a builtin passed as an argument (not over the big host
+                                                                # containers: reduce(60 strings, join) multiplies the text by 26 per element)
         else:
             args.append(atom(r, extra_names))
     return args
